@@ -9,7 +9,7 @@ from props import c04
 
 TRUSTED = ['manifest taken by the harness itself (FNV-1a content hash, symlink_metadata)']
 ASSUMPTIONS = ['the proof is about the model\'s effect signature (the file system is an input only); the tie to the code is the inventory, the manifests and (thorough) strace']
-WITH_MODEL = False
+WITH_MODEL = True
 
 def upload_cases(rng, tree):
     names = ['/' + n.decode('utf-8', 'surrogateescape') for n in tree.names]
@@ -48,11 +48,14 @@ def run(res, tier, seed):
             delta = sorted(sa ^ sb)[:6]
             res.fail('tree-modified', tree.line()[:300], str(delta)[:400], None,
                      f'C13: the tree manifest changed during a batch of {len(cases)} requests: {len(sa - sb)} entries new/changed, {len(sb - sa)} gone/changed')
-    try:
-        from props import c13_runtime
-        c13_runtime.run_part(res, rng, tier)
-    except ImportError:
-        res.notes.append('runtime part (effect inventory, strace) not present: props/c13_runtime.py')
+    from props import c13_runtime as RT
+    RT.report_inventory(res)                      # (a) effect inventory of the source, regenerated now
+    RT.manifest_check(res, tier, seed)            # (c') the REAL binary over an arena with sentinel directories
+    if tier == 'thorough':
+        st = RT.strace_check(tier, seed)          # (b) the real binary under strace
+        res.extra['strace'] = {k: v for k, v in st.items() if k != 'violations'}
+        for v in st['violations'][:5]:
+            res.fail('syscall:' + str(v)[:60], 'strace campaign', str(v)[:300], None, 'C13: the server issued a file-modifying system call')
     res.rule = ('request sequences of the C04 campaign and upload-shaped bodies (multipart with filename incl. ../ and absolute names, urlencoded, octet-stream) on '
                 'PUT/DELETE/PATCH/POST/GET/OPTIONS/TRACE/CONNECT against files, directories, new names, the form and file-upload endpoints, both entry points; '
                 'the manifest of the WHOLE generated tree (root, ancestors, siblings) is compared before/after each batch; distinct = (entry, request)')
